@@ -43,13 +43,13 @@ type Observation struct {
 type Model map[string]interface{}
 
 type Violation struct {
-	Harness string   `json:"harness"`
-	Kind    string   `json:"kind"` // assert | panic
-	Msg     string   `json:"msg"`
-	Pos     string   `json:"pos"`
-	Known   string   `json:"known_key,omitempty"`
-	Model   Model    `json:"model"`
-	Trace   []int    `json:"trace"`
+	Harness  string                 `json:"harness"`
+	Kind     string                 `json:"kind"` // assert | panic
+	Msg      string                 `json:"msg"`
+	Pos      string                 `json:"pos"`
+	Known    string                 `json:"known_key,omitempty"`
+	Model    Model                  `json:"model"`
+	Trace    []int                  `json:"trace"`
 	Observed map[string]interface{} `json:"observed,omitempty"`
 }
 
@@ -63,72 +63,76 @@ type Stubs map[string]func(in *Interp, fn *ssa.Function, args []Value) Value
 
 // Explorer runs one harness function to exhaustion over all feasible paths.
 type Explorer struct {
-	P        *Program
-	Harness  string // full function name
-	Stubs    Stubs
-	Known    map[string]bool // known-finding keys that are active
-	Workers  int
+	P          *Program
+	Harness    string // full function name
+	Stubs      Stubs
+	Known      map[string]bool // known-finding keys that are active
+	Workers    int
 	SolverKind string
-	TimeoutMS int
+	TimeoutMS  int
+	// WallBudget bounds one harness run in wall-clock time (0 = none): when it is used up no further path is started,
+	// running paths end at their next choice point, and the run is INCONCLUSIVE (never "held")
+	WallBudget time.Duration
+	deadline   time.Time
 
-	MaxDecisions   int
-	MaxBlockVisits int
-	MaxSteps       int
-	MaxSplit       int
-	MapOrders      bool
-	MapOrderMax    int
-	SampleEvery    int
-	MaxViolations  int
-	CrossCheck     bool // re-discharge final queries on cvc5
-	HostStringHook func(in *Interp, s string) Value
-	InterpretPkgs  []string // extra package path prefixes allowed for interpretation
-	EnvMax int
-	MaxSamples int
-	samplesPending int
-	Skeletons map[string]string
+	MaxDecisions                     int
+	MaxBlockVisits                   int
+	MaxSteps                         int
+	MaxSplit                         int
+	MapOrders                        bool
+	MapOrderMax                      int
+	SampleEvery                      int
+	MaxViolations                    int
+	CrossCheck                       bool // re-discharge final queries on cvc5
+	HostStringHook                   func(in *Interp, s string) Value
+	InterpretPkgs                    []string // extra package path prefixes allowed for interpretation
+	EnvMax                           int
+	MaxSamples                       int
+	samplesPending                   int
+	Skeletons                        map[string]string
 	FallbackQueries, FallbackDecided int
-	TightenAbove int
-	Forks map[string]int
-	Redirects map[string]string // callee full name -> replacement (summary) full name
-	NoIfConv bool
-	IfConv int
-	Seed int
-	ByteLo, ByteHi int64
-	BufMaxLen int64
-	Regexes map[string]int
+	TightenAbove                     int
+	Forks                            map[string]int
+	Redirects                        map[string]string // callee full name -> replacement (summary) full name
+	NoIfConv                         bool
+	IfConv                           int
+	Seed                             int
+	ByteLo, ByteHi                   int64
+	BufMaxLen                        int64
+	Regexes                          map[string]int
 
-	mu       sync.Mutex
-	stack    [][]int
-	active   int
-	cond     *sync.Cond
+	mu     sync.Mutex
+	stack  [][]int
+	active int
+	cond   *sync.Cond
 
 	// results
-	Paths        int
-	PathsAssumeEnd int
-	AssertsReached map[string]int
-	AssertsChecked int
-	Violations   []Violation
-	KnownHits    map[string][]Violation
-	Inconclusive []string
-	Samples      []Sample
-	FuncsEncoded map[string]int
-	HostCalls    map[string]int
-	StubsUsed    map[string]bool
-	LazyGlobals  map[string]bool
+	Paths                           int
+	PathsAssumeEnd                  int
+	AssertsReached                  map[string]int
+	AssertsChecked                  int
+	Violations                      []Violation
+	KnownHits                       map[string][]Violation
+	Inconclusive                    []string
+	Samples                         []Sample
+	FuncsEncoded                    map[string]int
+	HostCalls                       map[string]int
+	StubsUsed                       map[string]bool
+	LazyGlobals                     map[string]bool
 	Queries, QSat, QUnsat, QUnknown int
-	SolverTime   time.Duration
-	Wall         time.Duration
-	Decisions    int
-	MaxDepth     int
-	OrderVars    int
-	UnknownFeas  int
-	ObligChecked int
-	GlobalWrites map[string]int
-	CrossChecked int
-	CrossDisagree int
-	initGlobals  map[*ssa.Global]*Cell
-	initCells    int
-	Steps        int64
+	SolverTime                      time.Duration
+	Wall                            time.Duration
+	Decisions                       int
+	MaxDepth                        int
+	OrderVars                       int
+	UnknownFeas                     int
+	ObligChecked                    int
+	GlobalWrites                    map[string]int
+	CrossChecked                    int
+	CrossDisagree                   int
+	initGlobals                     map[*ssa.Global]*Cell
+	initCells                       int
+	Steps                           int64
 }
 
 func NewExplorer(p *Program, harness string) *Explorer {
@@ -217,6 +221,9 @@ func (ex *Explorer) mayInterpret(fn *ssa.Function) bool {
 // Run explores all paths.
 func (ex *Explorer) Run() error {
 	t0 := time.Now()
+	if ex.WallBudget > 0 {
+		ex.deadline = t0.Add(ex.WallBudget)
+	}
 	fn := ex.P.Funcs[ex.Harness]
 	if fn == nil {
 		return fmt.Errorf("harness %s not found", ex.Harness)
@@ -248,10 +255,19 @@ func (ex *Explorer) Run() error {
 	return nil
 }
 
+// OverBudget reports whether the run's wall-clock budget is used up (checked by the interpreter at choice points).
+func (ex *Explorer) OverBudget() bool {
+	return !ex.deadline.IsZero() && time.Now().After(ex.deadline)
+}
+
 func (ex *Explorer) pop() ([]int, bool) {
 	ex.mu.Lock()
 	defer ex.mu.Unlock()
 	for {
+		if !ex.deadline.IsZero() && time.Now().After(ex.deadline) && len(ex.stack) > 0 {
+			ex.Inconclusive = append(ex.Inconclusive, fmt.Sprintf("wall-clock budget of %s used up with %d path prefixes unexplored", ex.WallBudget, len(ex.stack)))
+			ex.stack = nil
+		}
 		if len(ex.stack) > 0 {
 			t := ex.stack[len(ex.stack)-1]
 			ex.stack = ex.stack[:len(ex.stack)-1]
